@@ -139,6 +139,7 @@ fam(ScenarioFamily('capacity', ('C14', 'C13'), gen.capacity_scenario, 300, 2000)
 fam(ScenarioFamily('spawn', ('C06', 'C04', 'C05', 'C02'), gen.spawn_scenario, 200, 1500))
 fam(ScenarioFamily('dupfwd', BUS_PROPS + ('C07',), gen.dupfwd_scenario, 300, 3000))
 fam(ScenarioFamily('later', BUS_PROPS, gen.later_scenario, 400, 4000))
+fam(ScenarioFamily('shapes', BUS_PROPS, gen.shapes_scenario, 500, 5000))
 fam(EnumFamily('error_enum', ('C11', 'C01'), gen.error_base, gen.error_derive, 12, 200, 40, 120))
 fam(EnumFamily('idle_enum', ('C15',), gen.idle_base, gen.idle_derive, 16, 250, 40, 120))
 fam(ScenarioFamily('history_deep', BUS_PROPS, gen.history_deep_scenario, 300, 4000))
@@ -156,6 +157,7 @@ CHECKS['C01'].families.append('error_enum')
 for _p in ('C01', 'C02', 'C03', 'C04', 'C05', 'C06', 'C08', 'C09', 'C11', 'C15'):
     CHECKS[_p].families.append('dupfwd')
     CHECKS[_p].families.append('later')
+    CHECKS[_p].families.append('shapes')
 CHECKS['C08'].families.append('timeout_enum')
 CHECKS['C15'].families.append('idle_enum')
 for _p in ('C01', 'C03', 'C04', 'C13', 'C15'):
